@@ -18,12 +18,19 @@ pub struct Spec {
     intent: i32,
     /// configured secret (hex) or null
     secret_hex: Option<String>,
-    /// absent | empty | valid | truncate | bitflip | other-secret | ip | age | body | client-v6
+    /// absent | empty | valid | truncate | bitflip | other-secret | ip | age | body | client-v6 |
+    /// age-stall (n = real milliseconds the client waits before presenting a cookie that has one second left)
     kind: String,
     n: i64,
     /// expiry configured on the connection
     expiry: u64,
     text: String,
+    /// latency of the authentication service (virtual ms)
+    #[serde(default)]
+    auth_ms: u64,
+    /// the authentication service refuses
+    #[serde(default)]
+    auth_err: bool,
 }
 
 fn ck_props() -> Vec<Prop> {
@@ -80,6 +87,11 @@ fn cookie(s: &Spec, now: u64) -> (Option<Vec<u8>>, Option<bool>) {
             // accepted iff ts + expiry >= now  <=>  age <= expiry
             (Some(sign(&body(ts, CLIENT), &sec)), Some(s.n <= s.expiry as i64))
         }
+        "age-stall" => {
+            // valid when the connection starts (expires at now + 1), expired when it is presented (now + 2.1 or later)
+            let ts = now + 1 - s.expiry;
+            (Some(sign(&body(ts, CLIENT), &sec)), Some(false))
+        }
         "body" => {
             let (bytes, verdict): (Vec<u8>, Option<bool>) = match s.text.as_str() {
                 "not-json" => (b"this is not json at all \xff\xfe".to_vec(), Some(false)),
@@ -124,7 +136,12 @@ fn build(s: &Spec, now: u64) -> (Case, Option<bool>) {
     let (payload, verdict) = if asked { cookie(s, now) } else { (None, Some(false)) };
     let login = Login { intent: s.intent, auth_cookie: asked.then_some(payload), ..Default::default() };
     case.script = login.steps();
-    case.adapters.auth = AuthPlan::Profile { name: V_NAME.into(), uuid: V_UUID, props: vec![] };
+    if s.kind == "age-stall" {
+        let at = case.script.iter().position(|st| matches!(&st.act, Act::Cookie { key, .. } if key == "passage:authentication")).unwrap_or_else(|| common::machinery("C02: no authentication cookie step"));
+        case.script.insert(at, st(When::Idle, Act::RealSleep(s.n as u64)));
+    }
+    case.adapters.auth = if s.auth_err { AuthPlan::Err } else { AuthPlan::Profile { name: V_NAME.into(), uuid: V_UUID, props: vec![] } };
+    case.adapters.auth_ms = s.auth_ms;
     case.horizon_ms = 60_000;
     (case, verdict)
 }
@@ -146,7 +163,12 @@ fn judge(s: &Spec, verdict: Option<bool>, obs: &Obs) -> Vec<(String, String)> {
     }
     let class = if s.kind == "body" { format!("{}:{}", s.kind, s.text) } else if s.kind == "age" { format!("age:{}", if s.n == s.expiry as i64 { "at-expiry" } else if s.n < s.expiry as i64 { "younger" } else { "older" }) } else { s.kind.clone() };
     let accepted_shape = flag == Some(false) && auth_calls == 0 && success == Some((CK_NAME.to_string(), CK_UUID));
-    let authenticated_shape = flag == Some(true) && auth_calls >= 1 && success == Some((V_NAME.to_string(), V_UUID));
+    let authenticated_shape = if s.auth_err {
+        // the service was asked and refused: nothing may be granted and the connection ends
+        flag == Some(true) && auth_calls >= 1 && success.is_none() && !obs.has("Transfer") && !obs.has("StoreCookie") && obs.result.is_err()
+    } else {
+        flag == Some(true) && auth_calls >= 1 && success == Some((V_NAME.to_string(), V_UUID))
+    };
     match verdict {
         Some(true) => {
             // C02 says when authentication may be skipped, not that it must be (that promise is C10's): a valid
@@ -179,7 +201,7 @@ fn judge(s: &Spec, verdict: Option<bool>, obs: &Obs) -> Vec<(String, String)> {
 }
 
 fn sp(intent: i32, secret_hex: Option<&str>, kind: &str, n: i64, expiry: u64, text: &str) -> Spec {
-    Spec { intent, secret_hex: secret_hex.map(String::from), kind: kind.into(), n, expiry, text: text.into() }
+    Spec { intent, secret_hex: secret_hex.map(String::from), kind: kind.into(), n, expiry, text: text.into(), auth_ms: 0, auth_err: false }
 }
 
 fn specs(cookie_len: usize, thorough: bool) -> Vec<Spec> {
@@ -218,6 +240,20 @@ fn specs(cookie_len: usize, thorough: bool) -> Vec<Spec> {
     }
     for body in ["not-json", "empty-body", "array", "number", "string", "null", "truncated-json", "missing-user-name", "missing-extra", "extra-field"] {
         v.push(sp(3, Some(k), "body", 0, 21_600, body));
+    }
+    // the service's verdict is required however long it takes and whatever it is
+    for auth_ms in [4_000u64, 8_000, 40_000] {
+        for auth_err in [false, true] {
+            for (kind, n, text) in [("absent", 0, ""), ("empty", 0, ""), ("bitflip", 0, ""), ("bitflip", 300, ""), ("other-secret", 0, ""), ("ip", 0, "10.0.0.1:40123"), ("age", 21_601, ""), ("truncate", 31, ""), ("body", 0, "not-json"), ("valid", 0, "")] {
+                v.push(Spec { auth_ms, auth_err, ..sp(3, Some(k), kind, n, 21_600, text) });
+            }
+            v.push(Spec { auth_ms, auth_err, ..sp(2, Some(k), "absent", 0, 21_600, "") });
+            v.push(Spec { auth_ms, auth_err, ..sp(3, None, "absent", 0, 21_600, "") });
+        }
+    }
+    // a cookie that is still valid when the connection starts and expired when it is presented (real time)
+    for (expiry, stall) in [(60u64, 2_100i64), (1, 2_100), (21_600, 2_100)] {
+        v.push(sp(3, Some(k), "age-stall", stall, expiry, ""));
     }
     if thorough {
         // every pair of tag bits
@@ -308,7 +344,7 @@ pub fn run(cli: Cli) -> ! {
     rep.set("clock_retries", json!(retries.load(Ordering::Relaxed)));
     rep.set("cookie_length_bytes", json!(sample_cookie.len()));
     rep.set("exhaustive", json!(true));
-    rep.set("rule", json!("one connection per cookie variant: every truncation length, every single-bit flip of tag and body (thorough: also every pair of tag bits), other secret, 6 addresses, ages {0, e-2, e-1, e, e+1, e+2, e+10^6, -1} x expiry {0,1,60,21600}, 10 signed bodies that are not a cookie, 5 secret length classes, plus intent x secret combinations without a cookie branch. Every spec is distinct."));
+    rep.set("rule", json!("one connection per cookie variant: every truncation length, every single-bit flip of tag and body (thorough: also every pair of tag bits), other secret, 6 addresses, ages {0, e-2, e-1, e, e+1, e+2, e+10^6, -1} x expiry {0,1,60,21600}, 10 signed bodies that are not a cookie, 5 secret length classes, intent x secret combinations without a cookie branch; 12 cookie situations x authentication latency {4 s, 8 s, 40 s} x service verdict {vouches, refuses}; 3 cookies that are valid when the connection starts and expired (2.1 s of real time later) when presented. Every spec is distinct."));
     rep.sample(json!({"spec": all[0]}));
     rep.sample(json!({"spec": sp(3, Some("6b"), "age", 60, 60, ""), "expect": "accepted (age == expiry) if the wall-clock second does not tick during the run, else repeated"}));
     rep.sample(json!({"spec": sp(3, Some("6b"), "bitflip", 255, 21600, ""), "expect": "must authenticate"}));
